@@ -205,7 +205,12 @@ def handleScript (init : String) (toks : List String) (impl : List String) : Ver
     let s0 := if init = "ctx" then initSt [0] else initPlain
     let r := replay (4 * acts.length + 64) acts { st := s0 }
     let expected := " ".intercalate (r.obs.reverse ++ [showRes r.st.result])
-    { model := cmpModel expected impl, spec := r.bad }
+    -- transparency: the cancellation error may only appear when some context was cancelled by the script
+    let cancelledSome := toks.any (fun t => t.startsWith "cc")
+    let spec := if !cancelledSome ∧ impl.getLast? = some "err:cancelled" then
+        some "the script ended with the cancellation error although no context was ever cancelled (a coroutine inherited a context that died with its creator)"
+      else r.bad
+    { model := cmpModel expected impl, spec := spec }
 
 /-! ### blocking channel operations -/
 
